@@ -107,8 +107,10 @@ class Verifier:
             return list(obls.values())
         cases = c.cases or [c.params]
         clause_names = list(c.posts) + [f"raises-{k}" for k, v in c.raises.items() if v] + ["raises-only-declared"]
+        self._only = set(only) if only is not None else None
         for n in clause_names:
-            ob(n)
+            if self._only is None or n in self._only:
+                ob(n)
         feasible_paths = 0
         try:
             for ci_idx, params in enumerate(cases):
@@ -183,9 +185,11 @@ class Verifier:
                 if k in mro:
                     allowed = k
                     break
-            o = ob("raises-only-declared")
-            o.paths += 1
+            if self._only is not None and "raises-only-declared" not in self._only and allowed is None:
+                return
             if allowed is None:
+                o = ob("raises-only-declared")
+                o.paths += 1
                 if o.status != "violated":
                     r, m, reason = self.prove(s.pc, z3.BoolVal(False))
                     if r == "sat":
@@ -196,48 +200,48 @@ class Verifier:
                     elif r == "unknown":
                         o.status, o.detail = "undecided", reason
                 return
+            if self._only is None or "raises-only-declared" in self._only:
+                ob("raises-only-declared").paths += 1
             cond_fn = c.raises[allowed]
-            if cond_fn:
+            if cond_fn and (self._only is None or f"raises-{allowed}" in self._only):
                 self.check_clause(c, s, cond_fn, values, None, ob(f"raises-{allowed}"), negate=False,
                                   what=f"raises {res.cls} although the contract's condition for it is false")
             return
         # normal outcome: every `raises X iff cond` clause must have a false cond; every post must hold
         for k, cond_fn in c.raises.items():
-            if cond_fn and not cond_fn.startswith("may_"):
+            if cond_fn and not cond_fn.startswith("may_") and (self._only is None or f"raises-{k}" in self._only):
                 self.check_clause(c, s, cond_fn, values, res, ob(f"raises-{k}"), negate=True,
                                   what=f"returns normally although the contract demands {k}")
         for p in c.posts:
-            self.check_clause(c, s, p, values, res, ob(p), negate=False, what=f"postcondition {p} fails")
+            if self._only is None or p in self._only:
+                self.check_clause(c, s, p, values, res, ob(p), negate=False, what=f"postcondition {p} fails")
 
     def check_clause(self, c: Contract, s: State, clause: str, values: Dict[str, Any], result, o: Obl, negate: bool,
                      what: str) -> None:
         ex = self.ex
         env = dict(values)
         env["result"] = result
+        for gk, gv in s.ghost.items():
+            if isinstance(gk, str):
+                env["ghost_" + gk] = gv
         try:
-            rs = c.call_clause(ex, s.fork(), clause, env)
+            goal = c.clause_formula(ex, s, clause, env)
         except (Unsupported, L.ShapeMismatch) as u:
             if o.status == "discharged":
                 o.status, o.detail = "undecided", f"{type(u).__name__}: {str(u)[:300]}"
             return
-        for s2, v in rs:
-            o.paths += 1
-            if isinstance(v, Exc):
-                if ex.feasible(s2.pc) and o.status == "discharged":
-                    o.status, o.detail = "undecided", f"contract clause itself raised {v.cls} (specification error)"
-                continue
-            goal = ex.truth(s2, v)
-            if negate:
-                goal = z3.Not(goal)
-            r, m, reason = self.prove(s2.pc, goal)
-            if r == "sat":
-                if o.status != "violated":
-                    o.status, o.detail = "violated", what
-                    o.model = (s2, m)
-                    o.solver_output = str(m)[:2000]
-                    o._values = values  # type: ignore[attr-defined]
-            elif r == "unknown" and o.status == "discharged":
-                o.status, o.detail = "undecided", f"solver: {reason}"
+        o.paths += 1
+        if negate:
+            goal = z3.Not(goal)
+        r, m, reason = self.prove(s.pc, goal)
+        if r == "sat":
+            if o.status != "violated":
+                o.status, o.detail = "violated", what
+                o.model = (s, m)
+                o.solver_output = str(m)[:2000]
+                o._values = values  # type: ignore[attr-defined]
+        elif r == "unknown" and o.status == "discharged":
+            o.status, o.detail = "undecided", f"solver: {reason}"
 
     # ------------------------------------------------------------------------------------------------ replay
     def concretize(self, c: Contract, o: Obl) -> Optional[Dict[str, Any]]:
